@@ -137,7 +137,7 @@ func strMapEq(a, b map[string]string) bool {
 
 func monC11(c *drv.Ctx) {
 	// ---- Base ----
-	c.Stage("base", c.Pick(15000, 800000), false, func(cs *drv.Case) {
+	c.Stage("base", c.Pick(150000, 1500000), false, func(cs *drv.Case) {
 		r := cs.R
 		orig := &base.Base{LogID: genFieldStr(r), Caller: genFieldStr(r), Addr: genFieldStr(r), Extra: genExtra(r)}
 		fail := func(check, msg string, a ...interface{}) {
@@ -216,7 +216,7 @@ func monC11(c *drv.Ctx) {
 	})
 
 	// ---- BaseResp ----
-	c.Stage("baseresp", c.Pick(15000, 800000), false, func(cs *drv.Case) {
+	c.Stage("baseresp", c.Pick(150000, 1500000), false, func(cs *drv.Case) {
 		r := cs.R
 		orig := &base.BaseResp{StatusMessage: genFieldStr(r), StatusCode: gen.I32(r), Extra: genExtra(r)}
 		fail := func(check, msg string, a ...interface{}) {
@@ -267,7 +267,7 @@ func monC11(c *drv.Ctx) {
 	})
 
 	// ---- ApplicationException ----
-	c.Stage("exception", c.Pick(15000, 800000), false, func(cs *drv.Case) {
+	c.Stage("exception", c.Pick(150000, 1500000), false, func(cs *drv.Case) {
 		r := cs.R
 		msg := genFieldStr(r)
 		tid := gen.I32(r)
